@@ -120,6 +120,35 @@ fn strs(v: &[&str]) -> Vec<Vec<u8>> {
     v.iter().map(|s| s.as_bytes().to_vec()).collect()
 }
 
+/// "Sanitisation slips": well-formed strings padded with ASCII / Unicode whitespace, control
+/// characters or stray separators at either end, or with one letter replaced by a character
+/// that case-folds to ASCII. All are ill-formed; a parser that trims or folds accepts them.
+pub fn sanitisation_slips(bases: &[&str]) -> Vec<Vec<u8>> {
+    const PADS: &[&str] = &[" ", "\t", "\n", "\r\n", "\u{a0}", "\u{2003}", "\u{feff}", "\0", "\u{b}", "\u{c}", "-", "_", "\u{85}"];
+    const FOLD: &[(char, char)] = &[('k', '\u{212a}'), ('s', '\u{17f}'), ('i', '\u{130}'), ('a', '\u{ff41}'), ('e', '\u{435}'), ('n', '\u{ff4e}')];
+    let mut out = vec![];
+    for b in bases {
+        for p in PADS {
+            out.push(format!("{p}{b}").into_bytes());
+            out.push(format!("{b}{p}").into_bytes());
+            out.push(format!("{p}{b}{p}").into_bytes());
+        }
+        for (from, to) in FOLD {
+            if let Some(pos) = b.to_ascii_lowercase().find(*from) {
+                let mut c: Vec<char> = b.chars().collect();
+                c[pos] = *to;
+                out.push(c.into_iter().collect::<String>().into_bytes());
+            }
+        }
+    }
+    out.sort();
+    out.dedup();
+    out
+}
+
+pub const SLIP_BASES_LANGID: &[&str] = &["en", "und", "en-US", "de_AT", "sr-Cyrl-RS", "ca-ES-valencia", "sl-1994", "es-419", "EN-latn-us", "abcde-Kana-001-1abc-nedis"];
+pub const SLIP_BASES_LOCALE: &[&str] = &["en-u-ca-buddhist", "en-US-t-es-ar-k0-kana", "und-x-priv", "de-u-attr-co-phonebk-t-h0-hybrid-x-a-b", "sk-Latn-SK-u-nu-latn", "en-t-k0-kana-u-ks-level1"];
+
 /// The language-identifier space of C02 / C13 / C19.
 pub fn langid_space(cfg: &Cfg, tag: &str, f: &ByteCheck<'_>) -> Stats {
     let mut d = Driver::new(f);
@@ -151,6 +180,7 @@ pub fn langid_space(cfg: &Cfg, tag: &str, f: &ByteCheck<'_>) -> Stats {
     all.sort();
     all.dedup();
     d.list("G5 CLDR locale names, likelySubtags keys and values", &all);
+    d.list("sanitisation slips: well-formed ids padded with whitespace / control characters / separators, or with a letter that case-folds to ASCII", &sanitisation_slips(SLIP_BASES_LANGID));
     d.total
 }
 
@@ -190,5 +220,7 @@ pub fn locale_space(cfg: &Cfg, tag: &str, f: &ByteCheck<'_>) -> Stats {
     all.sort();
     all.dedup();
     d.list("G5 CLDR locale names x extension suffixes", &all);
+    let bases: Vec<&str> = SLIP_BASES_LANGID.iter().chain(SLIP_BASES_LOCALE.iter()).cloned().collect();
+    d.list("sanitisation slips: well-formed locales padded with whitespace / control characters / separators, or with a letter that case-folds to ASCII", &sanitisation_slips(&bases));
     d.total
 }
